@@ -3,6 +3,8 @@
 //!   avsim --property C02 --tier quick|thorough [--seed N] [--scale F]
 //!   avsim --replay <file>
 //!   avsim --trace-hash --property C02 --runs N [--seed N]     (determinism selftest)
+#![cfg_attr(feature = "nightly", feature(generic_const_exprs))]
+#![cfg_attr(feature = "nightly", allow(incomplete_features))]
 mod concat;
 mod drv_rayon;
 mod durable;
@@ -62,7 +64,9 @@ fn main() {
         let runs: u64 = arg(&args, "--runs").and_then(|s| s.parse().ok()).unwrap_or(10_000);
         std::process::exit(trace_hash(&prop, seed, runs, tier));
     }
-    std::process::exit(check_property(&prop, tier, seed, scale));
+    let only = arg(&args, "--only");
+    let tag = arg(&args, "--tag");
+    std::process::exit(check_property(&prop, tier, seed, scale, only.as_deref(), tag.as_deref()));
 }
 
 /// determinism selftest: hash of every generated trace and outcome
@@ -144,9 +148,12 @@ fn replay_file(path: &str) -> i32 {
     }
 }
 
-fn check_property(prop: &str, tier: Tier, seed: u64, scale: f64) -> i32 {
+fn check_property(prop: &str, tier: Tier, seed: u64, scale: f64, only: Option<&str>, tag: Option<&str>) -> i32 {
     let t0 = Instant::now();
-    let plans = registry::plans(prop);
+    let mut plans = registry::plans(prop);
+    if let Some(o) = only {
+        plans.retain(|p| p.scenario.name().starts_with(o));
+    }
     if plans.is_empty() {
         eprintln!("harness: no check registered for property {}", prop);
         return 2;
@@ -179,7 +186,7 @@ fn check_property(prop: &str, tier: Tier, seed: u64, scale: f64) -> i32 {
     }
     // extra, scenario-independent deterministic checks (e.g. real-pool cross-check of C19)
     let mut extra_viol: Vec<(String, Viol, Value)> = vec![];
-    for (name, f) in registry::extras(prop) {
+    for (name, f) in registry::extras(prop).into_iter().filter(|_| only.is_none()) {
         let te = Instant::now();
         let (val, viols) = f(seed, tier);
         println!("  extra {:<20} wall={:.1}s", name, te.elapsed().as_secs_f64());
@@ -252,10 +259,11 @@ fn check_property(prop: &str, tier: Tier, seed: u64, scale: f64) -> i32 {
             None => (trace.clone(), viol.clone(), 0),
         };
         let safe: String = class.chars().map(|c| if c.is_ascii_alphanumeric() { c } else { '_' }).collect();
-        let path = format!("{}/replays/{}-{}-{}-{}.json", vdir, prop, seed, run, safe);
+        let path = format!("{}/replays/{}{}-{}-{}-{}.json", vdir, prop, tag.map(|t| format!(".{}", t)).unwrap_or_default(), seed, run, safe);
         let file = json!({
             "property": prop,
             "scenario": scen,
+            "binary": tag.unwrap_or("stable"),
             "seed": seed,
             "run_index": run,
             "class": class,
@@ -303,7 +311,7 @@ fn check_property(prop: &str, tier: Tier, seed: u64, scale: f64) -> i32 {
     let parts: Vec<(String, &BatchResult, String, Vec<Value>)> =
         results.iter().map(|(n, b, r, s)| (n.clone(), b, r.clone(), s.clone())).collect();
     let ev = evidence_json(prop, tier, seed, &parts, Value::Object(extra), violations, wall, &registry::assumptions(prop));
-    let epath = format!("{}/evidence/{}.json", vdir, prop);
+    let epath = format!("{}/evidence/{}{}.json", vdir, prop, tag.map(|t| format!(".{}", t)).unwrap_or_default());
     let _ = std::fs::create_dir_all(format!("{}/evidence", vdir));
     if let Err(e) = std::fs::write(&epath, serde_json::to_string_pretty(&ev).unwrap()) {
         eprintln!("harness: cannot write {}: {}", epath, e);
